@@ -319,6 +319,40 @@ pub fn run(ctx: &Ctx, rep: &mut Report) {
         rep.count("long_chains");
         check_seq(&seq, &format!("long:{}", i), rep, false);
     });
+    // many groups: a flat chain of 100-900 small parenthesised or negated groups ( P ), ! ( P ), ! P, ( P , P ):
+    // a per-group resource (a nesting counter that is not given back, a fixed-size stack) runs out
+    let n_groups = ctx.pick(3, 300) + 5;
+    par_cases(ctx, "groups", n_groups, rep, |i, rep| {
+        let mut r = Rng::for_case(ctx.seed, "groups", i);
+        let k = 100 + r.usize(800);
+        let mut seq: Vec<usize> = vec![];
+        let style = i % 4; // 0: only "! ( P )", 1: only "( P )", 2/3: mixed
+        for g in 0..k {
+            if g > 0 {
+                match r.below(6) {
+                    0 => seq.push(6),
+                    1 => seq.push(4),
+                    2 if style >= 2 => seq.push(3),
+                    _ => {}
+                }
+            }
+            let p = [8, 9, 10][r.usize(3)];
+            let kind = match style {
+                0 => 0,
+                1 => 1,
+                _ => r.below(5),
+            };
+            match kind {
+                0 => seq.extend([2, 0, p, 1]),
+                1 => seq.extend([0, p, 1]),
+                2 => seq.extend([2, p]),
+                3 => seq.extend([0, p, 3, 8, 1]),
+                _ => seq.extend([0, 0, p, 1, 1]),
+            }
+        }
+        rep.count("many_group_chains");
+        check_seq(&seq, &format!("groups:{}", i), rep, false);
+    });
     // very long chains: 1100-6000 operands (tens of KiB; C01 has no length bound), mostly implicit AND with
     // an occasional operator, an action as the very last operand: any silent cap on a repetition shows as a
     // truncated tree or a wrongly accepted tail
